@@ -19,7 +19,14 @@ import (
 
 // C17 — built-in functions keep their documented contracts.
 
-var tzNames = []string{"UTC", "Europe/Helsinki", "America/New_York", "Asia/Kolkata", "Australia/Lord_Howe", "Pacific/Apia", "-"}
+var tzNames = []string{"UTC", "Europe/Helsinki", "America/New_York", "Asia/Kolkata", "Australia/Lord_Howe", "Pacific/Apia", "-", "Nowhere/Atlantis", "Europe/Helsinki ", "../../etc/passwd"}
+
+func init() {
+	// the process's own local zone is fixed now, before any case changes TZ:
+	// it is what the host's time library falls back to when $TZ names a zone
+	// it cannot load
+	_ = time.Now().Local().Hour()
+}
 
 func numArg(rt *rapid.T, label string) lang.Value {
 	switch gen.Uniform(rt, label+"_k", 6) {
@@ -249,7 +256,10 @@ func TestC17(t *testing.T) {
 			if c.TZ != "-" {
 				l, err := time.LoadLocation(c.TZ)
 				if err != nil {
-					rt.Fatalf("harness: zone %s unavailable: %v", c.TZ, err)
+					// a zone the host cannot load: its time library then answers
+					// in the process's local zone, every time it is asked
+					l = time.Local
+					col.Class("unloadable-zone")
 				}
 				loc = l
 			}
@@ -262,6 +272,9 @@ func TestC17(t *testing.T) {
 				ret = lang.Call{Fn: fn, Args: []lang.Expr{lang.Name{N: "When"}}}
 			} else {
 				ret = call(fn, lang.Int(ts))
+			}
+			if rapid.Bool().Draw(rt, "asktwice") {
+				ret = lang.ArrayLit{Elems: []lang.Expr{ret, ret, lang.Call{Fn: "year", Args: []lang.Expr{lang.Lit{V: lang.Int(ts)}}}}}
 			}
 		case "wrong":
 			name := rapid.SampledFrom([]string{"between", "min", "max", "sort", "reverse", "split", "join", "len", "lower", "upper", "trim", "string", "int", "float", "type", "match", "replace", "keys", "hour", "weekday", "year"}).Draw(rt, "wfn")
